@@ -430,10 +430,8 @@ def divzero_sites(ctx, R, rule_id, reach):
     P = ctx.P
     n = 0
     fmt_sites = None
-    for q in sorted(reach):
-        f = P.funcs.get(q)
-        if f is None:
-            continue
+    for f in analysis_units(ctx, reach):
+        q = f.qual
         for nd in walk_local(f.node):
             den = None
             what = None
@@ -507,10 +505,8 @@ def divzero(ctx, R):
     n = divzero_sites(ctx, R, "C11.DIVZERO", reach)
     R.check(n >= 15, "C11.DIVZERO.inventory", "division sites examined: %d" % n, "", "", "fewer division sites than the 20 confirmed by hand", nontrivial=False)
     m = 0
-    for q in sorted(reach):
-        f = P.funcs.get(q)
-        if f is None:
-            continue
+    for f in analysis_units(ctx, reach):
+        q = f.qual
         for nd in walk_local(f.node):
             if isinstance(nd, ast.Call) and ntext(nd.func) in ("math.log", "math.log10", "math.log2", "math.sqrt", "log", "log10", "sqrt") and nd.args:
                 for a in nd.args[:2]:
@@ -1311,10 +1307,11 @@ _crash.rule_id = "GEN.CRASH"
 
 
 def _seqindex(ctx, R):
-    from .crash import seqindex, geomset, datumkeys
+    from .crash import seqindex, geomset, datumkeys, timekind
     seqindex(ctx, R)
     geomset(ctx, R)
     datumkeys(ctx, R)
+    timekind(ctx, R)
 
 
 _seqindex.rule_id = "GEN.SEQINDEX"
